@@ -13,7 +13,9 @@
 //	<data>  = `-` | hex | g<seed>:<len> (bytes of a 64 bit LCG, see genBytes)
 //	<pkt>   = T:<conn>:<a|b>:<seqoff>:<len>:<flags>   a whole TCP segment sent by endpoint A or B of <conn>;
 //	              seqoff is relative to that endpoint's ISN (SYN = 0, first data byte = 1), payload =
-//	              data[seqoff-1 : seqoff-1+len], flags ⊆ "SAFP" or `-`
+//	              data[seqoff-1 : seqoff-1+len], flags ⊆ "SAFP" or `-`; an optional 7th field says that the
+//	              record was cut by the snap length (incl_len < orig_len): `x<k>` = only the first k bytes of
+//	              the IP packet are in the file, `xL` = the cut is inside the link header
 //	          F:<conn>:<a|b>:<ipid>:<fragoff>:<mf>:<hex>   an IPv4 fragment (IP payload bytes literal)
 //	N / N=<links>   (pcapng) a new section starts here, with the interfaces of the first section / with these
 package main
@@ -84,11 +86,27 @@ type pkt struct {
 	so    int // T: sequence offset relative to the ISN
 	n     int // T: payload length
 	flags int
+	cut   int // T: snaplen truncation: cutNone, cutLink (inside the link header) or the number of bytes of the IP packet that are captured
 	// F:
 	ipid uint16
 	foff int
 	mf   bool
 	body []byte
+}
+
+const (
+	cutNone = -1
+	cutLink = -2
+)
+
+func (p pkt) cutStr() string {
+	switch p.cut {
+	case cutNone:
+		return ""
+	case cutLink:
+		return ":xL"
+	}
+	return fmt.Sprintf(":x%d", p.cut)
 }
 
 type kase struct {
@@ -208,7 +226,7 @@ func (p pkt) String() string {
 		}
 		return fmt.Sprintf("F:%d:%s:%d:%d:%d:%s", p.conn, d, p.ipid, p.foff, mf, hlib.Hex(p.body))
 	}
-	return fmt.Sprintf("T:%d:%s:%d:%d:%s", p.conn, d, p.so, p.n, flagStr(p.flags))
+	return fmt.Sprintf("T:%d:%s:%d:%d:%s%s", p.conn, d, p.so, p.n, flagStr(p.flags), p.cutStr())
 }
 
 func (k *kase) opText() string {
@@ -348,7 +366,22 @@ func parseKase(op string) (*kase, error) {
 			return nil, fmt.Errorf("pkt %q", w)
 		}
 		switch {
-		case f[0] == "T" && len(f) == 6:
+		case f[0] == "T" && (len(f) == 6 || len(f) == 7):
+			p.cut = cutNone
+			if len(f) == 7 {
+				switch {
+				case f[6] == "xL":
+					p.cut = cutLink
+				case strings.HasPrefix(f[6], "x"):
+					v, err := strconv.Atoi(f[6][1:])
+					if err != nil || v < 0 {
+						return nil, fmt.Errorf("pkt %q", w)
+					}
+					p.cut = v
+				default:
+					return nil, fmt.Errorf("pkt %q", w)
+				}
+			}
 			so, e1 := strconv.Atoi(f[3])
 			n, e2 := strconv.Atoi(f[4])
 			fl, e3 := parseFlags(f[5])
@@ -398,7 +431,9 @@ func (k *kase) segmentBytes(p pkt) []byte {
 }
 
 // frames renders every packet as a link-layer frame; frame i is on interface i mod len(links).
-func (k *kase) frames() (frames [][]byte, ifaces []int, flinks []string) {
+// frames returns the captured bytes of every frame (truncated as the packet says), the frames' lengths on
+// the wire, the interface and the link type of each.
+func (k *kase) frames() (frames [][]byte, ifaces []int, flinks []string, origLens []int) {
 	be := capFmts[k.fmtName].be
 	secOf := make([]int, len(k.pkts))
 	secIdx := make([]int, len(k.pkts))
@@ -423,11 +458,23 @@ func (k *kase) frames() (frames [][]byte, ifaces []int, flinks []string) {
 		}
 		ls := k.linksOf(secIdx[i])
 		ifc := (i - secOf[i]) % len(ls)
-		frames = append(frames, linkFrame(ls[ifc], be, ip, p.dir == 0, c.v6()))
+		fr := linkFrame(ls[ifc], be, ip, p.dir == 0, c.v6())
+		origLens = append(origLens, len(fr))
+		if !p.frag && p.cut != cutNone {
+			linkLen := len(fr) - len(ip)
+			keep := linkLen / 2
+			if p.cut >= 0 {
+				keep = linkLen + p.cut
+			}
+			if keep < len(fr) {
+				fr = fr[:keep]
+			}
+		}
+		frames = append(frames, fr)
 		ifaces = append(ifaces, ifc)
 		flinks = append(flinks, ls[ifc])
 	}
-	return frames, ifaces, flinks
+	return frames, ifaces, flinks, origLens
 }
 
 func (k *kase) capture() []byte {
@@ -438,7 +485,7 @@ func (k *kase) capture() []byte {
 // captureFacts also returns, for pcapng, `<SHB length>:<length of the section's last block>` per section.
 func (k *kase) captureFacts() ([]byte, string) {
 	f := capFmts[k.fmtName]
-	frames, ifaces, _ := k.frames()
+	frames, ifaces, _, origLens := k.frames()
 	if f.ng {
 		var out []byte
 		var facts []string
@@ -447,11 +494,11 @@ func (k *kase) captureFacts() ([]byte, string) {
 			for _, l := range k.linksOf(si) {
 				ls = append(ls, linkNum[l])
 			}
-			b, shb, last := ngSection(f, ls, frames[r[0]:r[1]], ifaces[r[0]:r[1]])
+			b, shb, last := ngSection(f, ls, frames[r[0]:r[1]], ifaces[r[0]:r[1]], origLens[r[0]:r[1]])
 			out = append(out, b...)
 			facts = append(facts, fmt.Sprintf("%d:%d", shb, last))
 		}
 		return out, strings.Join(facts, ",")
 	}
-	return writePcap(f, linkNum[k.links[0]], frames), "-"
+	return writePcap(f, linkNum[k.links[0]], frames, origLens), "-"
 }
